@@ -3,12 +3,43 @@ K = 'github.com/ProjectSerenity/firefly/kernel'
 
 PROP = {
     'pkg': K + '/device/tty',
-    'tests': [{'name': 'TestVerifC18', 'checks_quick': 8000, 'checks_thorough': 200000},
-              {'name': 'TestVerifC18Vga', 'checks_quick': 8000, 'checks_thorough': 200000},
-              {'name': 'TestVerifC18Fb', 'checks_quick': 4000, 'checks_thorough': 100000}],
-    'rule': 'placeholder',
-    'technique': 'placeholder',
-    'level_text': 'placeholder',
-    'level_note': '',
-    'assumptions': [],
+    'tests': [{'name': 'TestVerifC18', 'checks_quick': 24000, 'checks_thorough': 800000, 'shrinktime': '10s'},
+              {'name': 'TestVerifC18Vga', 'checks_quick': 24000, 'checks_thorough': 600000, 'shrinktime': '10s'},
+              {'name': 'TestVerifC18Fb', 'checks_quick': 12000, 'checks_thorough': 300000, 'shrinktime': '10s'}],
+    'rule': 'The C17 histories (<=400 ops: WriteByte/Write with control bytes, SetCursorPosition, about 9% '
+            'SetState(active/inactive), about 1% re-attachment to a freshly generated console of the same kind - always '
+            'preceded by SetState(inactive), as hal does) run against three console kinds, one rapid test each: a '
+            'reference text grid 1..12 x 1..12 (TestVerifC18); the real VgaTextConsole, 1..12 x 1..10, 80x25 or 1..100 x '
+            '1..50 (TestVerifC18Vga); the real VesaFbConsole with 1..9 x 1..7 cells (thorough: ~3% up to 40x20), bpp in '
+            '{8,15,16,24,32}, 3-4 colour layouts per depth, each of the three shipped Terminus fonts, 0..glyph-1 '
+            'remainder pixels right of / below the grid, pitch = row bytes + 0..64, no logo or a generated logo of '
+            'height 1..40 (any width <= console, alignment, palette) set through SetLogo before SetFont '
+            '(TestVerifC18Fb). Real consoles are brought up through DriverInit with mapRegionFn pointed at guarded '
+            'host memory pre-filled with a position-dependent pattern that shares no byte value with default-colour '
+            'pixels. After every op: active -> every console cell equals the cell of the terminal\'s own viewport '
+            '(text mode: 16-bit cell value; framebuffer: harness-rendered glyph in the packed colours), logo scanlines, '
+            'scanlines below the grid and memory behind the framebuffer byte-identical to set-up, bytes right of the '
+            'last column equal to the set-up value of the same offset 0..k glyph rows further down (k = scrolls '
+            'requested so far); inactive -> no drawing call (grid) / no byte of the mapping changed (real consoles). '
+            'Non-trivial = deactivate -> writes that scroll -> activate, or >=3 buffer scrolls while active; distinct '
+            '= different hash of the JSON case.',
+    'technique': 'rapid-generated op histories; console contents vs. the terminal viewport after every op (reference '
+                 'grid, real text-mode driver, real framebuffer driver with an independent glyph renderer on guarded memory)',
+    'level_text': 'Generated-input search: after every op of a generated history the complete console (every cell, every '
+                  'byte of the mapped framebuffer including logo rows, remainder strips, row padding and the slack '
+                  'behind it) is compared with the terminal\'s viewport and with the set-up snapshot. Exploration, not '
+                  'proof.',
+    'level_note': 'The terminal only ever draws in the default colours 7 on 0, so colour conversion of other palette '
+                  'entries is not exercised (property C19). The 4th byte of a 32-bpp pixel is not asserted.',
+    'assumptions': ['a console Scroll may move whole scanlines: bytes right of the last column travel with their scanline '
+                    '(never receive cell content); logo rows, rows below the grid and memory behind the framebuffer '
+                    'must not change at all',
+                    'on the reference grid a Write outside the grid counts as drawing outside it; a Fill rectangle is '
+                    'clipped to the grid; lines vacated by Scroll are undefined until redrawn',
+                    'the space glyph of the three shipped fonts is blank (checked at start), so Fill and a written '
+                    'space look the same',
+                    'colour layouts keep every component inside the bytes the driver writes (2 for 15/16 bpp, 3 for '
+                    '24/32 bpp)',
+                    'consoles with an empty cell grid (framebuffer smaller than one glyph, 0-column text mode) are not '
+                    'generated: there is no viewport to show'],
 }
